@@ -5,7 +5,7 @@
 # tools/mutlab.sh clean                        : remove the scratch copies.
 # Prints "<id> exit=<code>" per check (1 = the check reports a violation).
 set -u
-LAB=/tmp/mutlab
+LAB="${MUTLAB_DIR:-/tmp/mutlab}"
 VER="$(cd "$(dirname "$0")/.." && pwd)"
 case "${1:-}" in
   clean)
